@@ -107,6 +107,53 @@ def run_slow_sequences(rnd, n):
     return world.run_virtual(go())
 
 
+def run_one_script(rnd, n):
+    """sequences of operations on ONE api object whose device script is loaded ONCE for the whole sequence: the replies are consumed
+    one per frame written, so an operation that stops early (refused argument, empty login reply) leaves its replies to the next
+    one, and a reply dropped or added shifts everything after it.  Compared with the model's threaded connection (Model/Session.v
+    run_seq) and with the Spec's reading (Spec/Session.v: each operation alone on what the earlier ones left)"""
+    async def go():
+        cases = []; texts = []
+        for _ in range(n):
+            t2 = rnd.random() < .5
+            ident = ("%06x" % rnd.randrange(1 << 24), "%02x" % rnd.randrange(256))
+            api = world.ScriptedApi(t2, *ident); now = rnd.randrange(1_600_000_000, 2_000_000_000)
+            ops = []; script = []
+            for _ in range(rnd.randrange(2, 7)):
+                kind = rnd.choice([k for k in range(1, 13) if (k in world.TYPE2_KINDS) == t2])
+                c = oc.mixed_cases(rnd, 1)[0] if rnd.random() < .3 else clean_case(rnd, kind)
+                if (c["kind"] in world.TYPE2_KINDS) != t2: c = clean_case(rnd, kind)
+                now += rnd.choice([0, 1, 5, 3600]); c["now"] = now; c["id"], c["key"] = ident
+                if c["kind"] == 4 and len(c["replies"]) > 1: c["replies"][1] = world.schedules_reply(rnd, now).hex()
+                ops.append(c); script += [r for r in c["replies"] if len(r) <= 2048]
+            u = rnd.random()
+            if u < .15 and script: del script[rnd.randrange(len(script))]
+            elif u < .3: script.insert(rnd.randrange(len(script) + 1), rnd.choice(["", "00", rnd.randbytes(rnd.randrange(1, 60)).hex()]))
+            elif u < .4: script = script[:rnd.randrange(len(script) + 1)]
+            api.frames.clear(); api.script[:] = [bytes.fromhex(r) for r in script]; api.pending = b""
+            outs = [await api.run_on(c["kind"], c["args"], c["now"]) for c in ops]
+            cases.append({"id": ident[0], "key": ident[1], "ops": ops, "script": script})
+            texts.append("".join(f + "|" for f in api.frames) + "".join(o + ";" for o in outs))
+        return cases, texts
+    return asyncio.run(go())
+
+
+def seq_line(fn, c):
+    return lib.req(fn, c["id"], c["key"], [[o["kind"], o["now"], world.model_op_args(o["kind"], o["args"], o["now"])] for o in c["ops"]],
+                   [bytes.fromhex(r) for r in c["script"]])
+
+
+def judge_scripts(out, stream, cases, texts):
+    def view(t):          # per frame: its size, bytes 8-11 (session), 24-27 (timestamp), 40-42 (device id / login key); then the outcomes
+        fs = t.split("|")
+        return " ".join("%d:%s:%s:%s" % (len(f) // 2, f[16:24], f[48:56], f[80:86]) for f in fs[:-1]) + " -> " + fs[-1]
+    mo = [view(t) for t in lib.run_model([seq_line("seq", c) for c in cases])]; ex = [view(t) for t in lib.run_model([seq_line("seq_spec", c) for c in cases])]
+    texts = [view(t) for t in texts]
+    d = lambda c: "one script of %d replies for: " % len(c["script"]) + "; ".join(oc.describe(o)[:120] for o in c["ops"])
+    lib.differential(out, stream, cases, texts, mo, ex, d, nontrivial=lambda c: True, sample=lambda c: d(c)[:300],
+                     classify=lambda c, i: "one-script/%d-ops/%d-frames" % (len(c["ops"]), i.count("|")))
+
+
 class Interleaved(world.ScriptedApi):
     def __init__(self, rnd, traveller, *a):
         super().__init__(*a); self.rnd = rnd; self.trav = traveller
@@ -175,6 +222,8 @@ def run(tier, rnd, out):
             for _ in range(1 if tier == "quick" else 6)]
     for c in grid: c.pop("cur", None); c.pop("fault_at", None)
     judge(out, "thermostat-request-grid", grid, world.run_cases_fresh(grid))
+    cases, texts = run_one_script(rnd, 60 if tier == "quick" else 1500)
+    judge_scripts(out, "one-script-for-a-whole-sequence", cases, texts)
     cases, texts = run_slow_sequences(rnd, 30 if tier == "quick" else 600)
     judge(out, "slow-replies-on-one-object", cases, texts)
     cases, texts = run_interleaved(rnd, 40 if tier == "quick" else 1000)
@@ -192,6 +241,16 @@ def run_one_slow(c):
     return world.run_virtual(go())
 
 
+def replay_script(c):
+    async def go():
+        api = world.ScriptedApi(c["ops"][0]["kind"] in world.TYPE2_KINDS, c["id"], c["key"])
+        api.frames.clear(); api.script[:] = [bytes.fromhex(r) for r in c["script"]]; api.pending = b""
+        outs = [await api.run_on(o["kind"], o["args"], o["now"]) for o in c["ops"]]
+        return "".join(f + "|" for f in api.frames) + "".join(o + ";" for o in outs)
+    return asyncio.run(go())
+
+
 def replay(rp, out):
     c = rp["input"]
+    if "ops" in c: return judge_scripts(out, rp.get("stream", "replay"), [c], [replay_script(c)])
     judge(out, rp.get("stream", "replay"), [c], run_one_slow(c) if c.get("delays") else world.run_cases_fresh([c]))
